@@ -422,7 +422,11 @@ func (e *Engine) tryStub(name string, fn *ssa.Function, args []Value, g *Term, p
 			e.Unwind = int(t.val)
 			return nil, true
 		case "OnIdle":
-			e.idleHook = args[0].(FuncV)
+			if fv, ok := args[0].(FuncV); ok {
+				e.idleHook = fv
+			} else {
+				e.idleHook = FuncV{}
+			}
 			return nil, true
 		case "Symbolic":
 			return TS.True, true
